@@ -296,3 +296,47 @@ func VerifC07GetlineStreams() {
 	verifAssert(g("a1") == string(la[:1]) && g("a2") == string(la[1:2]) && g("a3") == string(la[2:3]) && g("b1") == string(lb[:1]) && g("b2") == string(lb[1:2]),
 		"interleaved getline streams did not each deliver their own file's records in order")
 }
+
+// many records abandoned through next / nextfile from inside a function: nothing accumulates from record to record
+func VerifC11ManyRecords() {
+	progs := []string{
+		`function f() { n++; next } { f() } END { r = n ":" NR }`,
+		`function f(d) { if (d > 0) f(d - 1); n++; next } { f(2) } END { r = n ":" NR }`,
+		`function f() { n++; if (NR % 2) next; return 1 } { m += f() } END { r = n ":" NR ":" m }`,
+		`function f() { n++; nextfile } { f() } END { r = n ":" NR }`,
+	}
+	pi := verifIntRange(0, len(progs)-1)
+	var input []byte
+	for i := 0; i < 1100; i++ {
+		input = append(input, 'r', '\n')
+	}
+	cfg := &Config{Stdin: bytes.NewReader(input), Output: &bytes.Buffer{}, Error: &bytes.Buffer{}, Environ: []string{}}
+	_, err, p := verifRunProgram(progs[pi], cfg, nil)
+	verifAssert(err == nil, "a run over 1100 records that leaves a function through next failed")
+	want := []string{"1100:1100", "1100:1100", "1100:1100:550", "1:1"}[pi]
+	verifAssert(verifGlobal(p, "r").s == want, "records abandoned through next / nextfile from inside a function were not each processed once")
+}
+
+// operands changed by the program before they are reached: ARGV elements assigned numbers, strings, deleted, added
+func VerifC11ArgvValues() {
+	fs := &verifFS{files: map[string][]byte{"2024": []byte("y\n"), "f1": []byte("a\n"), "f2": []byte("b\n"), "3.5": []byte("h\n")}}
+	begins := []string{
+		`BEGIN { ARGV[1] = 2023 + 1 }`,                  // a number names the file 2024
+		`BEGIN { ARGV[1] = "f2" }`,                      // replaced
+		`BEGIN { delete ARGV[1] }`,                      // removed: skipped
+		`BEGIN { ARGV[1] = "" }`,                        // emptied: skipped
+		`BEGIN { ARGV[2] = "f2"; ARGC = 3 }`,            // appended
+		`BEGIN { ARGV[1] = 7 / 2 }`,                     // a non-integral number names the file 3.5 (CONVFMT form)
+		`BEGIN { ARGV[2] = 2024; ARGC = 3 }`,            // appended number
+		`BEGIN { ARGV[1] = "v=9" } END { t = t "v" v }`, // turned into an assignment
+	}
+	bi := verifIntRange(0, len(begins)-1)
+	stdin := []byte("s\n")
+	src := begins[bi] + ` { t = t FILENAME ":" $0 ";" }`
+	cfg := &Config{Stdin: bytes.NewReader(stdin), Output: &bytes.Buffer{}, Error: &bytes.Buffer{}, Environ: []string{}, Args: []string{"f1"}, OpenFile: fs.open}
+	_, err, p := verifRunProgram(src, cfg, nil)
+	verifAssert(err == nil, "run failed")
+	want := []string{"2024:y;", "f2:b;", "-:s;", "-:s;", "f1:a;f2:b;", "3.5:h;", "f1:a;2024:y;", "-:s;v9"}[bi]
+	verifReach("ran")
+	verifAssert(verifGlobal(p, "t").s == want, "operands changed in BEGIN (ARGV elements set to numbers or strings, deleted, emptied, appended) were not processed as the operand list they form")
+}
